@@ -50,7 +50,9 @@ def cases(tier, seed):
     out = []
     for model, alpha, ords, st, rule, grid, cores, imp in itertools.product(
             nl_models(), [0., 20.], [(1, 1, 1), (2, 1, 2), (2, 2, 2)], ['zero', 'tiny', 'h', '3h'], ['trapz2d', 'simps2d'],
-            ['g24', 'g40'], [1, 2, 3, 8], [0, 1]):
+            ['g24', 'g40', 'g8x40'], [1, 2, 3, 8], [0, 1]):
+        if grid == 'g8x40' and (st not in ('h', '3h') or ords == (1, 1, 1) or (tier == 'quick' and (rule != 'trapz2d' or cores != 1 or imp))):
+            continue
         if tier == 'quick':
             if cores != 1 and (st != 'h' or ords != (2, 1, 2) or grid != 'g24' or imp):
                 continue
@@ -78,8 +80,9 @@ def cases(tier, seed):
 
 def build(case, cores=None):
     m1, m2, n2 = case['ords']
-    n = 24 if case['grid'] == 'g24' else 40
-    cfg = dict(model=case['model'], alphadeg=case['alpha'], m1=m1, m2=m2, n2=n2, s=40, nx=n, nt=n, ni_method=case['rule'],
+    # 'g8x40': fewer points along the meridian than around the circumference (8 points would alias the 4*n2 harmonics)
+    nx_, nt_ = {'g24': (24, 24), 'g40': (40, 40), 'g8x40': (8, 40)}[case['grid']]
+    cfg = dict(model=case['model'], alphadeg=case['alpha'], m1=m1, m2=m2, n2=n2, s=40, nx=nx_, nt=nt_, ni_method=case['rule'],
                ni_num_cores=cores or case['cores'], stack=[30., -60., 17.3] if 'iso' not in case['model'] else [])
     if case.get('presc'):
         if 'twist' in case['presc']:
